@@ -96,6 +96,6 @@ def run_case(prog):
 def searches(tier):
     q = tier == "quick"
     return [
-        ("flat", schedgen.program(maxdepth=0), 1500 if q else 20000),
-        ("nested", schedgen.program(maxdepth=2, split_yields=True), 1200 if q else 15000),
+        ("flat", schedgen.program(maxdepth=0, prerun_ok=True), 1500 if q else 20000),
+        ("nested", schedgen.program(maxdepth=2, split_yields=True, prerun_ok=True), 1200 if q else 15000),
     ]
